@@ -1,6 +1,6 @@
 (* Properties_C19.v — C19: shared variables, statistics and check-ups are safe under concurrent use (partial). *)
 From Coq Require Import List String Bool.
-From Romea Require Import Conc ConcModel ConcProofs.
+From Romea Require Import Conc ConcSerial ConcModel ConcProofs.
 From Romea.gen Require Import ConcFacts.
 Import ListNotations.
 
@@ -37,11 +37,31 @@ Theorem C19_optional_exactly_once_in_order : forall (V : Type) (ops : list (soop
 Proof. exact @so_exactly_once_in_order. Qed.
 Print Assumptions C19_optional_exactly_once_in_order.
 
-(* NOT PROVED (C19_serialisable_partial): that every concurrent run of a well-locked class equals a serial run in
-   lock-acquisition order (a Lipton-reduction argument).  The lifting of the serial specifications above and of
-   C18_report_consistent to concurrent runs therefore rests on the C++ guarantee that a data-race-free program whose
-   critical sections are guarded by one mutex is sequentially consistent at critical-section granularity; the
-   ThreadSanitizer harness checks value-in-stored-set, exactly-once and report consistency on real schedules. *)
+(* Serialisability at critical-section granularity: while a thread holds the lock NO other thread can take any step
+   (each of its pending actions is a Lock or lies inside a section it does not own), so every execution trace of a
+   well-locked class is a sequence of uninterrupted critical sections — the interleaved run IS a sequential ordering of
+   the calls, in lock-acquisition order, and what each call reads and writes is what that ordering produces. *)
+Theorem C19_only_the_holder_moves : forall st t a st', inv st -> lstep st (t, a) st' ->
+  match holder st with Some h => h = t /\ a <> Lock | None => a = Lock end.
+Proof. exact only_holder_steps. Qed.
+
+Theorem C19_well_locked_traces_serial : forall c progs, class_ok c = true -> (forall l, In l progs -> thread_of c l) ->
+  forall tr st, run {| holder := None; todo := progs |} tr st -> serial_trace None tr = true.
+Proof. exact well_locked_traces_serial. Qed.
+Print Assumptions C19_well_locked_traces_serial.
+
+Theorem C19_every_class_runs_serially : forall c, In c all_classes -> forall progs, (forall l, In l progs -> thread_of c l) ->
+  forall tr st, run {| holder := None; todo := progs |} tr st -> serial_trace None tr = true.
+Proof.
+  intros c Hc progs. apply well_locked_traces_serial.
+  pose proof C19_all_classes_well_locked as H. rewrite forallb_forall in H. exact (H c Hc).
+Qed.
+
+(* NOT PROVED: the C++ memory model (std::mutex is assumed to give mutual exclusion and happens-before, atomics to be
+   sequentially consistent), the fidelity of the AST analysis (cross-validated by ThreadSanitizer on every run), and
+   operations that are not a single critical section at this level of abstraction (an operation whose body is empty
+   here — RateMonitoring::getRate reads an atomic — is treated as an atomic read).  The serial specifications above and
+   C18_report_consistent apply to the serial order given by C19_well_locked_traces_serial. *)
 
 Example C19_ex_thread : thread_of cls_SharedVariable_int ([Lock; Wr 0; Unlock] ++ [Lock; Rd 0; Unlock] ++ []).
 Proof. apply (t_call _ "store"%string); [cbn; auto|]. apply (t_call _ "load"%string); [cbn; auto|]. constructor. Qed.
